@@ -401,6 +401,18 @@ pub fn gen_jxl(rng: &mut Rng, existing: Option<&Store>) -> Asset {
         b.extend_from_slice(&boxl(rng, b"abcd", &body));
         desc.push_str("+unknown");
     }
+    if rng.chance(1, 4) {
+        // a JUMBF superbox that is not a C2PA manifest store (other content-type UUID, label)
+        let mut d = b"othrjumbf\0\x11\0\x10\x80\0\0\xaa".to_vec();
+        d.truncate(16);
+        d.push(0x03);
+        d.extend_from_slice(b"other\0");
+        let mut body = iso_box(b"jumd", &d);
+        let k = rng.range(1, 30) as usize;
+        body.extend_from_slice(&iso_box(b"json", &rng.bytes(k)));
+        b.extend_from_slice(&boxl(rng, b"jumb", &body));
+        desc.push_str("+jumbother");
+    }
     if let (Some(c), 1) = (&c2pa, place) {
         b.extend_from_slice(c);
         desc.push_str("+cai@mid");
